@@ -14,7 +14,7 @@ CLAIMS = {
  'C09': ('Verus frame clauses: every mutating matcher function changes ledgers/pools only at the transaction\'s own ticker; the look-ahead changes claims only at same-ticker buys in the window.',
          'Frames of each step; the projection equality report(all) = (+) report(S) is the L3 closure and is not machine-checked; ticker case folding in parser/serde is A-ext.'),
  'C10': ('Verus: SPLIT multiplies and UNSPLIT divides the pool quantity only (cost, ledgers, legs, other tickers untouched); look-ahead quantities are rescaled by the cumulative ratio and costed in buy-time units.',
-         'Per-step; the rescaled-twin equivalence is relational (not decided); the pre-pass (compute_cost_offsets) has no split handling: see DESIGN F6.'),
+         'Per-step, plus the day loop of Matcher::process is proved to apply every SPLIT/UNSPLIT line of the day to the pool of its own security, in line order, after the day\'s sales and pooling (C10.applied: pool quantity == fold of ratio_effect over the day\'s lines); the rescaled-twin equivalence is relational (not decided); the pre-pass (compute_cost_offsets) has no split handling: see DESIGN F6.'),
  'C12': ('Verus: the 30-day look-ahead changes claims only at same-ticker purchases dated 1..30 days after the sale (fc_step), and stops reading at the first line beyond day 30; Kani: the break test fires only beyond day 30.',
          'The extension lemma (prefix report unchanged by a suffix) needs L2 and is not machine-checked.'),
  'C15': ('Verus proves, for every function of the matcher unit, absence of Decimal division by zero, out-of-bounds indexing, integer overflow and non-termination (each function is one implicit obligation), given parser-valid input.',
